@@ -96,17 +96,22 @@ func init() {
 	})
 	register(&core.Spec{
 		ID: "C31",
-		Explanation: "Decides the 'no escape sequence can make it block past its timeout' clause of C31 structurally: (TIMEOUT-ALL) in the terminal reader every read of a byte or rune passes a timeout that is either the caller's own timeout parameter, or a package variable initialised to a positive duration; the only reads with a negative (blocking) timeout are the first read of an event, which no other read precedes on any path and which is not inside a loop. So after the first byte of an event every further read is bounded. Decoding correctness is value-level and not decided.",
-		NotCovered:  "that plain UTF-8 text decodes to exactly its characters; key-sequence parsing",
-		Rules:       []string{"TIMEOUT-ALL"},
+		Explanation: "Decides two clauses of C31 structurally. (SEQ-INDEX, 'without crashing') in every function of the decoder - whatever is reachable inside pkg/cli/term from the functions that read bytes or runes with a timeout - each index or slice operation on a slice or string is within range on every path: constant positions under a length established by dominating checks, by make/append arithmetic or by the branch taken into a join; variable positions by loop bounds or the len-k shape. (TIMEOUT-ALL, 'no escape sequence can make it block past its timeout') in the terminal reader every read of a byte or rune passes a timeout that is either the caller's own timeout parameter, or a package variable initialised to a positive duration; the only reads with a negative (blocking) timeout are the first read of an event, which no other read precedes on any path and which is not inside a loop. So after the first byte of an event every further read is bounded. Decoding correctness is value-level and not decided.",
+		NotCovered:  "that plain UTF-8 text decodes to exactly its characters; which key a sequence denotes; nil dereferences and map writes",
+		Rules:       []string{"TIMEOUT-ALL", "SEQ-INDEX: every index into a list built from terminal bytes is within its proven length"},
 		Patterns:    []string{"./pkg/cli/term"},
 		OnlyGOOS:    []string{"linux", "darwin", "freebsd"},
-		Run:         runC31,
-		MinCounts:   map[string]int{"TIMEOUT-ALL": 5},
+		Run:         func(p *core.Program, r *core.Report) { runC31(p, r); runSeqIndex(p, r) },
+		MinCounts:   map[string]int{"TIMEOUT-ALL": 5, "SEQ-INDEX": 12},
 		Trusted:     trustedBase,
 		Controls: []core.Control{
 			{Name: "inner-read-blocks", Rule: "TIMEOUT-ALL", File: "pkg/cli/term/reader_unix.go", Old: "r, e := readRune(rd, keySeqTimeout)", New: "r, e := readRune(rd, -1)", Fire: true, Quick: true},
 			{Name: "continuation-bytes-block", Rule: "TIMEOUT-ALL", File: "pkg/cli/term/read_rune.go", Old: "b, err := rd.ReadByteWithTimeout(utf8SeqTimeout)", New: "b, err := rd.ReadByteWithTimeout(-1)", Fire: true},
+			{Name: "sgr-mouse-weaker-length-check", Rule: "SEQ-INDEX", File: "pkg/cli/term/reader_unix.go", Old: "\t\t\t\tif len(nums) != 3 {\n\t\t\t\t\tbadSeq(\"bad SGR mouse event\")", New: "\t\t\t\tif len(nums) < 2 {\n\t\t\t\t\tbadSeq(\"bad SGR mouse event\")", Fire: true, Want: "[2]", Quick: true},
+			{Name: "cpr-without-length-check", Rule: "SEQ-INDEX", File: "pkg/cli/term/reader_unix.go", Old: "\t\t\t\tif len(nums) != 2 {\n\t\t\t\t\tbadSeq(\"bad CPR\")\n\t\t\t\t\treturn\n\t\t\t\t}\n", New: "", Fire: true, Want: "readEvent"},
+			{Name: "tilde-modifier-read-for-one-number", Rule: "SEQ-INDEX", File: "pkg/cli/term/reader_unix.go", Old: "\t\t\t\tif len(nums) == 1 {\n\t\t\t\t\t// Unmodified: \\e[5~ (e.g. PageUp)\n\t\t\t\t\treturn k\n\t\t\t\t}\n", New: "", Fire: true, Want: "parseCSI"},
+			{Name: "digit-without-ensuring-a-slot", Rule: "SEQ-INDEX", File: "pkg/cli/term/reader_unix.go", Old: "\t\t\t\t\tif len(nums) == 0 {\n\t\t\t\t\t\tnums = append(nums, 0)\n\t\t\t\t\t}\n", New: "", Fire: true, Want: "readEvent"},
+			{Name: "benign-length-check-as-switch", Rule: "SEQ-INDEX", File: "pkg/cli/term/reader_unix.go", Old: "\t\t} else if len(nums) == 2 && nums[0] == 1 {", New: "\t\t} else if n := len(nums); n >= 2 && n <= 2 && nums[0] == 1 {", Fire: false},
 			{Name: "zero-timeout-variable", Rule: "TIMEOUT-ALL", File: "pkg/cli/term/reader_unix.go", Old: "var keySeqTimeout = 10 * time.Millisecond", New: "var keySeqTimeout = -10 * time.Millisecond", Fire: true},
 		},
 	})
